@@ -183,6 +183,10 @@ EXPRS = [
     "np.repeat(np.array([5, 6, 7]), np.array([2, 0, 1]))",
     "np.repeat(2 * np.array([], dtype=int), 2)",
     "np.repeat(np.array([[1, 2], [3, 4]]), 2)",
+    "[np.iinfo(t).min for t in (np.uint8, np.int8, np.int64)] + [np.iinfo(t).max for t in (np.uint8, np.int8, np.uint64)]",
+    "np.iinfo(np.array([1], dtype=np.int16).dtype).max",
+    "np.array([300, -1, 5])[(np.array([300, -1, 5]) >= 0) & (np.array([300, -1, 5]) <= 255)].astype(np.uint8)",
+    "np.array([], dtype=float)[np.array([], dtype=float) >= 0].astype(np.uint8)",
 ]
 
 RUNNER = r'''
